@@ -49,6 +49,10 @@ package generator
 //@   ensures old(builder.NoRule(ctx, source, target) && source.Pointer && !target.Pointer && !(source.Struct && target.Struct))
 //@           ==> strings.Contains(err.Cause, "useZeroValueOnPointerInconsistency")
 //@   at call rule.Build#1 assert RuleOrderOK(rule, ctx, source, target)
+// C05: before any rule is applied the pair is checked against field settings written on a pointer/value variant of it
+// (they would be bypassed by converting the pair in place)
+//@   ensures@C05 reached("g.getOverlappingStructDefinition#1")
+//@   at@C05 call g.getOverlappingStructDefinition#1 assert arg0 == ctx && arg1 == source && arg2 == target
 //@   at call typeMismatch#1 assert !builder.AnyPureRule(ctx, source, target)
 
 // C06: a custom function on the underlying types is looked for BEFORE any automatic rule (skipCopySameType included)
@@ -64,6 +68,8 @@ package generator
 //@   ensures@C13 builder.GenInv(g)
 //@   ensures old(builder.NoRule(ctx, source, target)) ==> err != nil
 //@   at call rule.Assign#1 assert RuleOrderOK(rule, ctx, source, target)
+//@   ensures@C05 reached("g.getOverlappingStructDefinition#1")
+//@   at@C05 call g.getOverlappingStructDefinition#1 assert arg0 == ctx && arg1 == source && arg2 == target
 //@   at call typeMismatch#1 assert !builder.AnyPureRule(ctx, source, target)
 
 //@ func generator.getOverlappingStructDefinition(g; ctx, source, target)
@@ -174,12 +180,19 @@ package generator
 
 // C13 (progress of the dirty fix-point): a method is only marked dirty for a type seen before if a sub
 // method is then created for it
+//@ pred PtrVariantOfCurrent(ctx *builder.MethodContext, source *xtype.Type, target *xtype.Type) bool =
+//@     source.Struct && target.Struct && (ctx.Signature.Source == types.NewPointer(source.T).String() || ctx.Signature.Target == types.NewPointer(target.T).String())
 //@ func generator.shouldCreateSubMethod(g; ctx, source, target)
 //@   props C06 C12 C08
 // whether the pair counts as an enum pair is decided with the settings of the method that is being generated
 //@   at@C12 call source.Enum#1 assert arg0 != nil && arg0.Enabled == ctx.Conf.Enum.Enabled && arg0.Unknown == ctx.Conf.Enum.Unknown && same(arg0.Excludes, ctx.Conf.Enum.Excludes)
 //@   at@C12 call target.Enum#1 assert arg0 != nil && arg0.Enabled == ctx.Conf.Enum.Enabled && arg0.Unknown == ctx.Conf.Enum.Unknown && same(arg0.Excludes, ctx.Conf.Enum.Excludes)
 //@   ensures@C13 old(ctx.HasSeen(source)) ==> result
+// C05/C12: field settings and flags of a method apply to its own target struct only -- a nested position whose source or
+// target is a named non-basic type is converted in a method of its own (with the converter's settings), unless the
+// current method is the pointer/value variant of that very struct pair or the pair is passed through (skipCopySameType)
+//@   ensures@C05,C12 !old(ctx.HasSeen(source)) && !PtrVariantOfCurrent(ctx, source, target) && !(ctx.Conf.SkipCopySameType && source.String == target.String)
+//@           && ((source.Named && !source.Basic) || (target.Named && !target.Basic)) ==> result
 //@   ensures@C13 !old(ctx.HasSeen(source)) ==> g.lookup.ByID(ctx.IndexID).Dirty == old(g.lookup.ByID(ctx.IndexID).Dirty)
 //@   requires@C13 builder.GenInv(g) && builder.MethodOK(ctx) && source != nil && target != nil
 //@   ensures@C13 builder.GenInv(g)
@@ -196,6 +209,9 @@ package generator
 //@   propagates
 //@   at@C12 call g.lookup.Register#1 assert same(genMethod.Method.Common, g.conf.Common) && genMethod.Definition.Name == name && genMethod.Definition.Generated
 //@   at@C04 call g.lookup.Register#1 assert genMethod.Method.Common.SkipCopySameType == g.conf.Common.SkipCopySameType
+// C18/C01: a generated helper lives in the OUTPUT package (references to it are qualified with that path, which the
+// output file drops as its own)
+//@   at@C18,C01 call g.lookup.Register#1 assert genMethod.Definition.Package == g.conf.OutputPackagePath
 //@   requires@C13 GenCall(g, ctx, sourceID, source, target)
 //@   requires !has(g.lookup.Exact, xtype.SignatureOf(source, target))
 //@   ensures@C13 builder.GenInv(g)
